@@ -204,8 +204,6 @@ class LinearComparer(CorrelatedComparer):
         return self.modes
 
     def __call__(self, comparer_params_evals, student_evals, utils):
-        student_evals_norm = np.linalg.norm(student_evals)
-
         # Validate student input shape...only needed for MatrixGrader
         if hasattr(utils, 'validate_shape'):
             # in numpy, scalars have empty tuples as their shapes
@@ -227,11 +225,14 @@ class LinearComparer(CorrelatedComparer):
         # flatten in case individual evals are arrays (as in MatrixGrader)
         student = np.array(student_evals).flatten()
         expected = np.array(comparer_params_evals).flatten()
+        # The fit errors measure distances from the expected values, so they are
+        # compared to the tolerance relative to the size of the expected values
+        expected_evals_norm = np.linalg.norm(expected)
         errors = [self.error_calculators[mode](student, expected) for mode in filtered_modes]
 
         results = [
             {'grade_decimal': self.config[mode], 'msg': self.config[mode+'_msg']}
-            if is_nearly_zero(error, utils.tolerance, reference=student_evals_norm)
+            if is_nearly_zero(error, utils.tolerance, reference=expected_evals_norm)
             else
             {'grade_decimal': 0, 'msg': ''}
             for mode, error in zip(filtered_modes, errors)
